@@ -848,12 +848,42 @@ func checkRootProbeOrder(c *Ctx) {
 		return zero && strings.Contains(roleOf(l, v, "", 0), "GetKey(local)")
 	}
 	n := 0
+	// the two lookups and the helper methods they delegate a probe sequence to (one level)
+	var fns []*ssa.Function
 	for _, name := range []string{"*nodeDB.GetRoot", "*nodeDB.GetNode"} {
 		fn := l.Func("", name)
 		if fn == nil {
 			c.anchorMissing(R, name)
 			continue
 		}
+		fns = append(fns, fn)
+		allInstrs(fn, func(in ssa.Instruction) {
+			cc := callCommon(in)
+			if cc == nil {
+				return
+			}
+			g := staticCallee(cc)
+			if g == nil || !l.inModule(g) || g.Signature.Recv() == nil || len(g.Blocks) == 0 || g == fn {
+				return
+			}
+			has := false
+			allInstrs(g, func(x ssa.Instruction) {
+				if isProbe(x) {
+					has = true
+				}
+			})
+			if has {
+				dup := false
+				for _, e := range fns {
+					dup = dup || e == g
+				}
+				if !dup {
+					fns = append(fns, g)
+				}
+			}
+		})
+	}
+	for _, fn := range fns {
 		var probes []ssa.Instruction
 		allInstrs(fn, func(in ssa.Instruction) {
 			if isProbe(in) {
